@@ -221,7 +221,6 @@ func VP_C39() {
 	}
 }
 
-
 // C15 / C16: purity (deterministic, history-free, no package-level writes)
 func VP_PURE() {
 	n := vpConfig("n")
@@ -246,7 +245,6 @@ func VP_PURE() {
 	vpCover("reached", true)
 }
 
-
 // C15: the check character search ranges over a map; its result must not depend on the iteration order
 func VP_C39_maporder() {
 	n := vpConfig("n")
@@ -256,10 +254,12 @@ func VP_C39_maporder() {
 	}
 	vpMapOrder(false)
 	a := getChecksum(content)
-	vpMapOrder(true)
-	b := getChecksum(content)
-	vpMapOrder(false)
-	vpAssert(a == b, "the check character does not depend on the order in which the table is iterated")
+	for r := 0; r < vpNativeRepeat(300); r++ {
+		vpMapOrder(true)
+		b := getChecksum(content)
+		vpMapOrder(false)
+		vpAssert(a == b, "the check character does not depend on the order in which the table is iterated")
+	}
 	vpAssert(len(a) == 1 && vpValue39(a[0]) >= 0, "the check character is one of the 43 data characters")
 	vpCover("reached", true)
 }
